@@ -6,6 +6,7 @@ import (
 	"encoding/json"
 	"fmt"
 	"reflect"
+	"runtime"
 	"strings"
 
 	"verif/h/gen"
@@ -455,6 +456,14 @@ func (j *productJob) freshEval(text string, m, di int) (impl.CallResult, interfa
 		return impl.CallResult{ErrType: "parse:" + pr.ErrType, ErrMsg: pr.ErrMsg, Panic: pr.Panic}, doc
 	}
 	return impl.Call(pr.F, doc), doc
+}
+
+// freshEvalCold is freshEval with the library's pools emptied first (two collections: primary
+// and victim cache), i.e. what the first call of a new process sees.
+func (j *productJob) freshEvalCold(text string, m, di int) (impl.CallResult, interface{}) {
+	runtime.GC()
+	runtime.GC()
+	return j.freshEval(text, m, di)
 }
 
 // replayProduct re-executes one (path, doc, mode) case with the given oracle.
